@@ -7,6 +7,8 @@
 #include <map>
 #include <set>
 
+#include <functional>
+#include <cmath>
 #include "harness.h"
 #include "scen.h"
 #include "simbackend.h"
@@ -26,6 +28,18 @@ sim::Json generate(const std::string& tier, uint64_t seed, uint64_t index) {
   go.want_suffixes = true;
   gen::Model m = gen::generate(rng, go);
   for (auto& v : m.vars) if (v.lb == v.ub) v.ub = v.lb + 2;
+  // now and then one original variable is fixed by its bounds at a constant that also occurs in an expression of the model
+  // (the converter keeps one fixed column per constant value; an original variable must not be taken for it)
+  {
+    std::vector<double> consts;
+    std::function<void(const gen::Expr&)> walk = [&](const gen::Expr& e) { if (e.kind == 'n' && e.num == std::floor(e.num) && std::fabs(e.num) < 1000) consts.push_back(e.num); for (auto& a : e.args) walk(a); };
+    for (auto& a : m.cons) if (a.has_nl) walk(a.nl);
+    for (auto& o : m.objs) if (o.has_nl) walk(o.nl);
+    consts.push_back(0.0); consts.push_back(1.0);
+    bool fixone = rng.chance(0.15);
+    int fj = (int)rng.below((uint64_t)m.nvars()); double fc = consts[rng.below(consts.size())];
+    if (fixone && !(m.vars[(size_t)fj].integer && fc != std::floor(fc))) { m.vars[(size_t)fj].lb = m.vars[(size_t)fj].ub = fc; }
+  }
   // input values inside the bounds (PresolveSolution clamps to bounds)
   m.x0.clear(); m.d0.clear();
   if (rng.chance(0.6)) for (int j = 0; j < m.nvars(); ++j) if (rng.chance(0.8)) {
